@@ -47,7 +47,7 @@ var propEngines = map[string][]string{
 
 // backlogProps: properties one run in backlogEvery of which is a backlog run (engine E4: thousands of
 // events pile up behind a stalled consumer; slow, so rare).
-var backlogProps = map[string]bool{"C08": true, "C09": true, "C15": true, "C16": true}
+var backlogProps = map[string]bool{"C08": true, "C09": true, "C15": true, "C16": true, "C14": true}
 
 const backlogEvery = 400
 
@@ -163,7 +163,11 @@ func TestWorker(t *testing.T) {
 		idx := first + i*stride
 		seed := seedFor(base, idx)
 		eng := engines[engs[int(idx)%len(engs)]]
-		if backlogProps[prop] && idx%backlogEvery == backlogEvery-1 {
+		every := uint64(backlogEvery)
+		if prop == "C14" {
+			every = 40 // (its runs of this engine - overdue expiries in a row - take milliseconds)
+		}
+		if backlogProps[prop] && idx%every == every-1 {
 			eng = engines["e4"]
 		}
 		if statusPath != "" {
